@@ -3,6 +3,8 @@ CONSTANTS
   Users = {"a", "b", "c"}
   Contracts = {"x", "y", "s", "e"}
   Hangers = {"z"}
+  HxTwins = {"xh"}
+  CxTwins = {"ac"}
   Ghosts = {"g"}
   Keys = {"k1", "k2"}
   Prices = {0, 1, 2}
